@@ -246,6 +246,21 @@ class Layouts:
                 inner.append(c2.path)
             elif find(e0, lambda n: n == ("arg", cur_arg)) or canon(e0) == rest:
                 return None     # a crate parser applied to bytes outside the delimited body
+        # combinator values applied to the taken bytes (`many0(complete(P))(body)`)
+        for blk2, t2, c2 in b.calls():
+            if c2 is None or c2.nsyn not in FN_CALL or blk2 == blk:
+                continue
+            cx = peel(an.local(b, t2["dest"]["l"])) if t2.get("dest") else None
+            if cx is None or cx[0] != "call":
+                continue
+            st2 = self.step_of_call(cx)
+            if st2 is None:
+                continue
+            cin = peel(st2[1])
+            if canon(cin) == taken:
+                inner.append(term_s(st2[0])[:80])
+            elif find(cin, lambda n: n == ("arg", cur_arg)) or canon(cin) == rest:
+                return None
         if not inner:
             return None
         # the success remainder is the take's remainder
